@@ -1,7 +1,7 @@
 /-
   C15 — Range and conditional GET follow RFC 9110 for every header and length;
   emitted dates parse back to the same instant in all three HTTP-date formats.
-  Property theorems only (helper lemmas live in LtVerif/Proofs/{Range,Date,Cond304}.lean).
+  Property theorems only (helper lemmas live in LtVerif/Proofs/{Range,RangeWalk,Date,Cond304}.lean).
 
   Vocabulary (defined next to the lemmas):
     Range.slice rep a b          bytes a..b of the representation
@@ -13,6 +13,7 @@
     Cond.ETag / etagListText     the entity-tag list grammar of RFC 9110 8.8.3 / 13.1.2
 -/
 import LtVerif.Proofs.Range
+import LtVerif.Proofs.RangeWalk
 import LtVerif.Proofs.Date
 import LtVerif.Proofs.Cond304
 namespace LtVerif.C15
@@ -546,7 +547,44 @@ theorem c15_if_modified_since_exact (now t lmtime : Int) (h0 : -30610224000 ≤ 
   · simp only [ifModifiedSince, (imf_roundtrip now t h0 h1).2, hne, Bool.or_false]
   · simp only [ifModifiedSince, (asctime_roundtrip now t h0 h1).2, hne, Bool.or_false]
 
+/-! ## the C pointer walk over the whole header = the ','-split model -/
+
+/-- http_range_parse_next() never reads past a ',': handed the whole remaining header
+    `p , rest` it produces the range it produces on `p` alone and returns the same
+    position (the returned text is the one for `p` followed by `, rest`) — for every
+    `p` (even one that itself contains ','), every `rest` and every length. -/
+theorem c15_parse_next_stops_at_comma (p rest : Bytes) (len : Int) :
+    parseNext (p ++ 44 :: rest) len
+      = ((parseNext p len).1, (parseNext p len).2 ++ 44 :: rest) :=
+  parseNext_append p rest len
+
+/-- the pointer returned by http_range_parse_next() is a position inside the text
+    it was given (so the walk of http_range_parse() only moves forward and ends) -/
+theorem c15_parse_next_returns_suffix (s : Bytes) (len : Int) : (parseNext s len).2 <:+ s :=
+  parseNext_suffix s len
+
+/-- http_range_parse() as written in C — ONE string walked with a pointer: parse_next on
+    the whole remainder, the `(*s == 0 || *s == ',') && ranges[n+1] != -1` test, the
+    skip-to-',' loop for invalid specs, `*s++` and `n < lim`, `break` past 10 unsorted
+    ranges (`parsePtr`, Model/RangeWalk.lean) — yields exactly the ranges of the
+    ','-split model `parse` that all theorems above are stated over, for EVERY header
+    text (grammatical or junk, any number of commas) and every length.  Hence every
+    theorem about `parse`/`process`/`rfc7233` holds of the pointer-level code too. -/
+theorem c15_pointer_walk_refines (s : Bytes) (len : Int) : parsePtr s len = parse s len :=
+  parsePtr_eq_parse s len
+
+/-- … and so for the response: http_range_process() over the pointer walk -/
+theorem c15_process_pointer_walk (rs : Resp) (hdr : Bytes) : processPtr rs hdr = process rs hdr :=
+  processPtr_eq_process rs hdr
+
 /-! ## non-vacuity -/
+
+/-- junk piece skipped, inner blanks, trailing ',' and an empty piece: the walk visits 5 pieces -/
+example : parsePtr (ofString "0-0 ,x-1,, 100-100 ,") 200 = [(0, 0), (100, 100)] ∧
+    parseNext (ofString "0-0 ,x-1") 200 = (some (0, 0), ofString ",x-1") ∧
+    walkItem 200 { rs := [], lim := RMAX } (ofString "x-1,, 100-100 ,")
+      = ({ rs := [], lim := RMAX }, false, ofString ",, 100-100 ,") := by
+  decide +kernel
 
 example : (rfc7233 exReq exResp).status = 206 ∧
     (rfc7233 exReq exResp).contentRange = some (ofString "bytes 2-5/12") ∧
